@@ -257,6 +257,16 @@ def normalizeDomain (raw : Str) : Str :=
 inductive Mode | ip | domain | domainPlus | domainCao
 deriving DecidableEq, Repr, Inhabited
 
+/-- `consts.ParseDialMode` applied to `global.dial_mode` (config default `"domain"` when the key is
+absent); `none` = the control plane refuses to start. -/
+def parseDialMode (v : Option Str) : Option Mode :=
+  let s := match v with | none => "domain".toList | some s => s
+  if s = "ip".toList then some .ip
+  else if s = "domain".toList then some .domain
+  else if s = "domain+".toList then some .domainPlus
+  else if s = "domain++".toList then some .domainCao
+  else none
+
 /-- `OutboundIndex.IsReserved`: `String()` is not of the form `<index: n>`. -/
 def isReserved (ob : Nat) : Bool :=
   ob == 0 || ob == 1 || ob == 0xFC || ob == 0xFD || ob == 0xFE || ob == 0xFF
